@@ -166,15 +166,19 @@ def route_programs(seed, n, syms=gen.SYMS, shapes=("pair", "chain3", "triangle",
         sym = syms[i % len(syms)]
         shape = shapes[(i // len(syms)) % len(shapes)]
         dtype = rng.choice(["float64", "complex128"])
-        net = make_network(rng, sym, shape, kind, dtype, maxd=1 if shape in ("chain4", "star") else 2)
+        # a third of the networks are CLOSED (no dangling leg): the last contraction returns a plain number unless asked otherwise
+        closed = rng.random() < 0.35
+        net = make_network(rng, sym, shape, kind, dtype, maxd=1 if shape in ("chain4", "star") else 2,
+                           dangling=0 if closed else None)
         inputs = {f"t{k}": d for k, (d, _) in enumerate(net)}
         tensors = [(f"t{k}", l) for k, (_, l) in enumerate(net)]
         steps = []
         finals = []
         for r in range(nroutes):
             b = Builder(f"q{r}_")
-            reg, legs = contract_route(rng, b, tensors)
-            reg, legs = canonical(b, reg, legs)
+            reg, legs = contract_route(rng, b, tensors, scalar_last=closed and r % 2 == 0)
+            if legs:
+                reg, legs = canonical(b, reg, legs)
             steps += b.steps
             finals.append(reg)
         for r in range(1, nroutes):
